@@ -88,6 +88,7 @@ def main():
     out_json = None
     jobs = 4
     files = []
+    own = None
     i = 0
     while i < len(args):
         if args[i] == "--props":
@@ -95,6 +96,11 @@ def main():
             i += 2
         elif args[i] == "--filter":
             flt = args[i + 1]
+            i += 2
+        elif args[i] == "--own":
+            # only the changes that break this property (their own `props`, else the ids in
+            # their name), checked by this property's check
+            own = args[i + 1]
             i += 2
         elif args[i] == "--all":
             props = ["C%02d" % k for k in range(1, 19)]
@@ -113,6 +119,11 @@ def main():
 
         files = sorted(glob.glob(os.path.join(VERIF, "mutants", "design_survey", "*.json")))
     ms = [m for m in load(files) if not flt or flt in m["name"]]
+    if own:
+        # (the first id is the property the change was written against; further ids are "may also
+        # fire" unless the entry says that every listed check is known to fire)
+        ms = [m for m in ms if props_of(m, None)[:1] == [own] or (m.get("props_all") and own in props_of(m, None))]
+        props = [own]
     work = [(m, props_of(m, props), i % jobs) for i, m in enumerate(ms)]
     # one slot = one cargo target dir; run slots in parallel, mutants of a slot serially
     by_slot = {}
